@@ -94,16 +94,32 @@ Definition is_failed (s : rstatus) := match s with Error | Canceled => true | _ 
 Inductive smsg := MNone | MCancel | MErr (ty msg : Z).     (* stop message: None / "User has canceled the job" / "T: m" *)
 Inductive wstate := WNone | WAlive | WDead.                (* self._worker: None / live thread / finished thread *)
 
-(* a result dictionary: shape 0 = {'results': X}, any other shape = a dict with neither 'results' nor
-   'results_list'.  X = (payload, the keyword arguments the task was called with), wrapped [nconv] times by the
+(* a result dictionary: shape 0 = {'results': X}, shape 1 = {'results_list': [...]} (see [entry]), any other
+   shape = a dict with neither 'results' nor 'results_list'.  X = (payload, the keyword arguments the task was called with), wrapped [nconv] times by the
    result mapping function, the outermost time with the keyword arguments [cargs]. *)
-Record res := mkres { shape : Z; payload : Z; rargs : kw; nconv : nat; cargs : kw }.
-Definition conv (r : res) (m : kw) : res := mkres (shape r) (payload r) (rargs r) (S (nconv r)) m.
+(* shape 1 = the iterated form {'results_list': [{'results': X_i, 'iteration': {...}}, ...]}: one [entry] per
+   iteration, X_i = (epay, same arguments), wrapped [enconv] times by the mapping function, the outermost time with
+   the keyword arguments [ecargs] = the mapping parameters overridden, key by key, by the entry's iteration dict
+   (`res["iteration"].get(key, val)`).  [nconv] counts the conversion passes over the whole dictionary. *)
+Record entry := mkentry { epay : Z; eiter : kw; enconv : nat; ecargs : kw }.
+Record res := mkres { shape : Z; payload : Z; rargs : kw; nconv : nat; cargs : kw; entries : list entry }.
+Fixpoint dget (d : kw) (k : Z) : option (option Z) :=
+  match d with [] => None | (k', v) :: r => if k =? k' then Some v else dget r k end.
+(* {key: iteration.get(key, val) for key, val in mapping.items()} *)
+Definition override (m it : kw) : kw :=
+  map (fun e => (fst e, match dget it (fst e) with Some v => v | None => snd e end)) m.
+Definition conv_entry (m : kw) (e : entry) : entry := mkentry (epay e) (eiter e) (S (enconv e)) (override m (eiter e)).
+(* one pass of LocalJob._get_results over a convertible dictionary ('results' or 'results_list') *)
+Definition conv (r : res) (m : kw) : res :=
+  mkres (shape r) (payload r) (rargs r) (S (nconv r)) (if shape r =? 1 then cargs r else m)
+        (map (conv_entry m) (entries r)).
+Definition convertible (z : Z) : bool := (z =? 0) || (z =? 1).
 
 Inductive outcome := ORet | ORaise (ty msg : Z) | OEscape.   (* OEscape: raises a BaseException that is not an Exception *)
 (* the task: reports [steps] (progress in 1/1000, phase id; 0 = no phase); stops early with the partial
    payload [ppay] when [coop] and check_cancel.cancel_requested(answer) holds; otherwise ends with [out]. *)
-Record prog := mkprog { steps : list (Z * Z); out : outcome; coop : bool; pshape : Z; pay : Z; ppay : Z }.
+Record prog := mkprog { steps : list (Z * Z); out : outcome; coop : bool; pshape : Z; pay : Z; ppay : Z;
+                        iters : list (Z * kw) (* shape 1: (payload, iteration dict) of every entry *) }.
 
 (* what a progress callback hands back to the task, and check_cancel.cancel_requested *)
 Inductive resp := RNone | RDict (c : option bool).
@@ -190,7 +206,7 @@ Definition do_get (c : cfg) (s : st) : st * gres :=
       if negb (maybe_completed x) then (s1, GStillRunning)
       else if conv_pending s1 then
         match results s1 with
-        | Some r => if shape r =? 0 then let r' := conv r (mapp s1) in (set_results s1 (Some r') false, GValue (Some r'))
+        | Some r => if convertible (shape r) then let r' := conv r (mapp s1) in (set_results s1 (Some r') false, GValue (Some r'))
                     else (s1, if is_failed x then GJobFailed m else GNotAvailable)     (* KeyError *)
         | None => (s1, if is_failed x then GJobFailed m else GNotAvailable)           (* TypeError *)
         end
@@ -227,7 +243,8 @@ Inductive obs :=
 
 (* ------------------------------------------------------------------ the worker *)
 Definition task_result (p : prog) (early : bool) (args : kw) : res :=
-  mkres (pshape p) (if early then ppay p else pay p) args 0 [].
+  mkres (pshape p) (if early then ppay p else pay p) args 0 []
+        (if pshape p =? 1 then map (fun e => mkentry (fst e) (snd e) 0 []) (iters p) else []).
 
 Definition finish_worker (s : st) : st :=
   if sync s then set_pc s PSyncRet else set_pc (set_worker s WDead) PDone.
